@@ -382,6 +382,41 @@ pub fn run(ctx: &Ctx) -> Report {
         sc.label = format!("weird[{label}]");
         v.push(sc);
       }
+      // early close: an otherwise honest stream cut at every byte offset of its first frames (and at random later
+      // offsets) - the peer hangs up in the middle of a length prefix, a message id, a bencoded header, a piece
+      {
+        let h = honest(&mut rng, 300, "cut");
+        let n = h.incoming.len();
+        let mut cuts: Vec<usize> = (60..n.min(68 + 260)).collect();
+        for _ in 0..ctx.n(40, 400) {
+          cuts.push(rng.below(n as u64) as usize);
+        }
+        let h2 = honest(&mut rng, 40000, "cut");
+        for _ in 0..ctx.n(60, 600) {
+          let at = rng.below(h2.incoming.len() as u64) as usize;
+          let mut sc = Script { label: format!("early-close@{at}/{}", h2.incoming.len()), target: h2.target, incoming: h2.incoming[..at].to_vec(), cuts: vec![], stages: h2.stages.iter().cloned().filter(|s| *s < at).collect(), ut_id: h2.ut_id, served: None };
+          sc.stages.dedup();
+          v.push(sc);
+        }
+        for at in cuts {
+          let sc = Script { label: format!("early-close@{at}/{n}"), target: h.target, incoming: h.incoming[..at].to_vec(), cuts: vec![], stages: h.stages.iter().cloned().filter(|s| *s < at).collect(), ut_id: h.ut_id, served: None };
+          v.push(sc);
+        }
+        // a frame that announces a payload and then nothing: every message id, length prefixes 1..3
+        for id in [0u8, 1, 5, 9, 20, 21, 255] {
+          for len in 1u32..=3 {
+            let mut inc = handshake(&h.target, true);
+            inc.extend_from_slice(&len.to_be_bytes());
+            inc.push(id);
+            v.push(Script { label: format!("bare-frame-id{id}-len{len}"), target: h.target, incoming: inc.clone(), cuts: vec![], stages: vec![], ut_id: 1, served: None });
+            let mut with_hs = handshake(&h.target, true);
+            with_hs.extend_from_slice(&ext_handshake(Some(1), Some(300), false));
+            with_hs.extend_from_slice(&len.to_be_bytes());
+            with_hs.push(id);
+            v.push(Script { label: format!("bare-frame-after-handshake-id{id}-len{len}"), target: h.target, incoming: with_hs, cuts: vec![], stages: vec![], ut_id: 1, served: None });
+          }
+        }
+      }
       // single-piece base for the size edge cases
       let small = info_of_size(&mut rng, 300);
       for hs in ["size-0", "size-minus-1", "size-plus-1", "ok"] {
